@@ -178,9 +178,29 @@ func runC16(t *rapid.T, st *Stats, v *VestWorld, viaHandler bool, determinismOnl
 			owners = append(owners, strings.ToUpper(owners[rapid.IntRange(0, len(owners)-1).Draw(t, "upperOf")]))
 			classes["owner_record_under_upper_case_spelling"] = true
 		}
+		// one old store in ten holds the records of more than a hundred further owners (one small pool each)
+		crowd := map[string]bool{}
+		if rapid.IntRange(0, 9).Draw(t, "manyOwners") == 0 {
+			for i, n := 0, rapid.IntRange(101, 140).Draw(t, "manyOwnersN"); i < n; i++ {
+				o := FreshAddr(30000 + i).String()
+				crowd[o] = true
+				owners = append(owners, o)
+			}
+			classes["more_than_100_owner_records"] = true
+		}
 		pre := map[string][]c16Pool{}
 		total := sdk.ZeroInt()
 		for oi, o := range owners {
+			if crowd[o] {
+				il, s, w := sdk.NewInt(int64(100000+oi)), sdk.NewInt(int64(oi%3)), sdk.NewInt(int64(oi%5))
+				ls := T0.Add(-time.Duration(oi) * time.Hour)
+				le := ls.Add(time.Duration(400+oi) * 24 * time.Hour)
+				pre[o] = append(pre[o], c16Pool{Name: "pool0", Type: tnames[oi%len(tnames)], LockStart: ls, LockEnd: le, IL: il, S: s, W: w})
+				bz := cdc.MustMarshal(&vestv2.AccountVestingPools{Address: o, VestingPools: []*vestv2.VestingPool{{Name: "pool0", VestingType: tnames[oi%len(tnames)], LockStart: ls, LockEnd: le, InitiallyLocked: il, Sent: s, Withdrawn: w}}})
+				prefix.NewStore(vstore, vestv2.AccountVestingPoolsKeyPrefix).Set([]byte(o), bz)
+				total = total.Add(il).Sub(s).Sub(w)
+				continue
+			}
 			var names []string
 			if o == c16Owner {
 				if rapid.IntRange(0, 5).Draw(t, "hasValidatorsPool") > 0 {
